@@ -44,9 +44,9 @@ def program_asts(max_random=None, small=None, rnd_items=None, rnd_nesting=None):
         add(ast)
     # seeded random derivations
     if max_random is None:
-        max_random = 2000 if t == "quick" else 30000
-    items = rnd_items or (6 if t == "quick" else 8)
-    nest = rnd_nesting or (3 if t == "quick" else 4)
+        max_random = 2000 if t == "quick" else 10000
+    items = rnd_items or (6 if t == "quick" else 7)
+    nest = rnd_nesting or 3
     tries = 0
     n0 = len(progs)
     while len(progs) - n0 < max_random and tries < max_random * 20:
